@@ -245,7 +245,20 @@ func runMain(args []string) {
 					return " "
 				}))
 			}
+			// many TOKENS in a slot (inline comments, harmless arithmetic): a budget on tokens
+			// scanned or folded shows here, a budget on bytes above
+			for _, k := range []int{9000, 70000} {
+				c := strings.Repeat("/**/", k)
+				long = append(long, "1' or"+c+"'a'='a", "1;"+c+"drop table users", "1 and"+c+"sleep(5)", "1) or"+c+"(1=1",
+					"1 union"+c+"select 1", "1"+strings.Repeat("+0", k/2)+" union select 1,2", "1 or 1=1"+strings.Repeat(" ,1", k/3)+" --")
+			}
 		} else {
+			// many NULs inside one name (C11b / C04c: any number), many attributes in front
+			for _, k := range []int{300, 5000, 100000} {
+				z := strings.Repeat("\x00", k)
+				long = append(long, "<img src=x on"+z+"error=alert(1)>", "x on"+z+"focus=alert(1) autofocus", "x' o"+z+"nclick=alert(1)", "<sc"+z+"ript>", "<a hr"+z+"ef=javascript:alert(1)>",
+					"<a "+strings.Repeat("b=c ", k/4)+"onclick=alert(1)>")
+			}
 			for i, v := range []string{"<script>alert(1)</script>", "<svg/onload=alert(1)>", "<a href=javascript:alert(1)>", "<iframe>"} {
 				n := pad[i%3]
 				long = append(long, strings.Repeat("x", n)+v, strings.Repeat("hello world ", n/12)+v, "x>"+v+strings.Repeat(" tail", n/5))
